@@ -132,7 +132,13 @@ def check(ctx: Ctx) -> list[RuleResult]:
     r1.instances += 1
     r1.nontrivial += 1
     assigns = [n for n in own_nodes(cx.node) if isinstance(n, ast.Assign) and norm(n.targets[0]) == "self._ctx_"]
-    vals = [norm(a.value) for a in assigns]
+    # the values that reach the memo, directly or through a local (`ctx = ...` in each arm, then `self._ctx_ = ctx`)
+    vals = []
+    for a in assigns:
+        if isinstance(a.value, ast.Name):
+            vals += [norm(d.value) for d in own_nodes(cx.node) if isinstance(d, (ast.Assign, ast.AnnAssign)) and d.value is not None and norm(d.targets[0] if isinstance(d, ast.Assign) else d.target) == a.value.id]
+        else:
+            vals.append(norm(a.value))
     if any("self.payload[" in v for v in vals) and any(v == "self._idx" for v in vals) and all(("self.payload" in v or "self._idx" in v) for v in vals):
         r1.ok({"Frame._ctx": vals})
     else:
@@ -323,13 +329,19 @@ def check(ctx: Ctx) -> list[RuleResult]:
                     cs = None if (cs is None or c2 is None) else cs | c2
                 idx_cols.setdefault(code, cs)  # the first branch that handles the code is the one that runs
     # Frame._ctx: the if/elif chain
-    chain = [st for st in ctxf.node.body if isinstance(st, ast.If) and any(isinstance(n, ast.Assign) and norm(n.targets[0]) == "self._ctx_" for n in ast.walk(st))]
+    # what reaches the memo: `self._ctx_ = <expr>` in each arm, or a local assigned in each arm and stored afterwards
+    memo_targets = {"self._ctx_"} | {n.value.id for n in own_nodes(ctxf.node) if isinstance(n, ast.Assign) and norm(n.targets[0]) == "self._ctx_" and isinstance(n.value, ast.Name)}
+
+    def _is_memo_assign(n: ast.AST) -> bool:
+        return isinstance(n, (ast.Assign, ast.AnnAssign)) and n.value is not None and norm(n.targets[0] if isinstance(n, ast.Assign) else n.target) in memo_targets and not (isinstance(n.value, ast.Name) and n.value.id in memo_targets)
+
+    chain = [st for st in own_nodes(ctxf.node) if isinstance(st, ast.If) and codes_of(st.test, "self.code") and not (isinstance(getattr(st, "parent", None), ast.If) and st in getattr(st.parent, "orelse", [])) and any(_is_memo_assign(n) for n in ast.walk(st))]
     if not chain:
         raise AnalysisError("Frame._ctx: the code-specific chain was not found")
     cur: ast.stmt | None = chain[-1]
     while isinstance(cur, ast.If):
         codes = codes_of(cur.test, "self.code")
-        assigns = [n for b in cur.body for n in ast.walk(b) if isinstance(n, ast.Assign) and norm(n.targets[0]) == "self._ctx_"]
+        assigns = [n for b in cur.body for n in ast.walk(b) if _is_memo_assign(n)]
         for code in codes:
             for a in assigns:
                 r4.instances += 1
